@@ -635,6 +635,38 @@ class Ctx:
                 lo0, hi0 = pr0.box.get(m.group(2), (None, None))
                 nbits = int(m.group(1)) if hi0 is None else int(hi0).bit_length()
                 add(Poly.const(nbits) - Poly.sym(name))
+            elif not m and name.startswith("len(vec[push ") and name.endswith("])"):
+                # the same whatever is pushed (`v.push(f(bit))`: the map step fused into the loop): the number of pushes
+                # is the number of iterations
+                ls_ = set()
+                i_ = 0
+                while True:
+                    j_ = name.find("loop(", i_)
+                    if j_ < 0:
+                        break
+                    k_, dep_ = j_ + 5, 0
+                    while k_ < len(name):
+                        if name[k_] == "(":
+                            dep_ += 1
+                        elif name[k_] == ")":
+                            if dep_ == 0:
+                                break
+                            dep_ -= 1
+                        k_ += 1
+                    ls_.add(name[j_:k_ + 1])
+                    i_ = k_ + 1
+                if len(ls_) == 1:
+                    L_ = next(iter(ls_))
+                    tL = sy.sym_terms.get(L_)
+                    wL = None
+                    if tL is not None and tL[0] == "var":
+                        tyL = self.body.locals[tL[1]]["ty"]
+                        wL = tyL.get("w") if tyL.get("k") == "int" and not tyL.get("s") else None
+                    if wL and self.clears_top_bit_loop(L_, need_single_push=True):
+                        pr0 = Prover(list(ge) + out, self.box(list(ge) + out + [Poly.sym(L_)]))
+                        lo0, hi0 = pr0.box.get(L_, (None, None))
+                        nbits = int(wL) if hi0 is None else int(hi0).bit_length()
+                        add(Poly.const(nbits) - Poly.sym(name))
         # dense-id check passed: ids are u16 and equal to their index, so there are at most 2^16 elements
         for a in other:
             if a[0] == "none":
